@@ -38,11 +38,11 @@ def Inv (env : Env H S V) (w : World S V) : Prop := w.dynTD = true ∧ HeapOK en
 
 /-- any world whose generators have just been created is coherent -/
 theorem inv_fresh (env : Env H S V) (w : World S V) (hd : w.dynTD = true)
-    (h : ∀ g ∈ w.gens, ∃ k, g = Gen.fresh k) : Inv env w := by
+    (h : ∀ g ∈ w.gens, ∃ k f tf, g = Gen.fresh k f tf) : Inv env w := by
   refine ⟨hd, ?_⟩
   intro g hg
-  obtain ⟨k, rfl⟩ := h g hg
-  exact GenOK_fresh env k
+  obtain ⟨k, f, tf, rfl⟩ := h g hg
+  exact GenOK_fresh env k f tf
 
 /-- **every history preserves coherence** (all op sequences, nested contexts, exceptions) -/
 theorem history_preserves_inv (env : Env H S V) (ops : List Op) (w : World S V) (h : Inv env w) :
@@ -61,13 +61,13 @@ time-dependent generator re-seeds it from `(name, seed, t)` before every draw. -
 theorem read_value_fn (env : Env H S V) (w : World S V) (tg : Target) (p gi : Nat) (g : Gen S V)
     (f : TimeV → V) (pt : PType) (hinv : Inv env w)
     (hr : resolve w tg p = some (.gen gi)) (hg : w.gens[gi]? = some g) (hk : g.kind.timeFn env = some f)
-    (hp : w.ptypes[p]? = some pt) (hnf : g.failsNow = none) :
+    (hp : w.ptypes[p]? = some pt) (hnf : g.failsNow = none) (hfz : g.frozen = none) :
     (runOp env (.read tg p) w).1 = .ok (.val (some (f w.clock.time))) := by
   simp only [runOp, readSlot, hr, hp, hg, hinv.1]
   rw [readGen_nofail env _ _ _ g false (by simp [hnf])]
   simp only [produceValue]
-  have hok := HeapOK_get env _ _ g hinv.2 hg
-  unfold GenOK GenOK' at hok
+  have hok := (HeapOK_get env _ _ g hinv.2 hg).resolve_left (fun h => h hfz)
+  unfold GenOK' at hok
   simp only [hk] at hok
   by_cases ht : some w.clock.time = g.lastTime
   · -- cache hit: the cached value was produced at this very time
@@ -83,7 +83,7 @@ theorem read_value_fn (env : Env H S V) (w : World S V) (tg : Target) (p gi : Na
       simp at ht
   · have : (some w.clock.time != g.lastTime) = true := by simpa using ht
     simp only [Bool.not_true, Bool.false_eq_true, if_false, Bool.false_or, this, if_true,
-      produce_val env g _ f hk]
+      produce_val env g _ f hk hfz]
     cases pt <;> rfl
 
 /-- the case of a time-dependent random distribution `(name, seed)`: the value is
@@ -91,9 +91,9 @@ theorem read_value_fn (env : Env H S V) (w : World S V) (tg : Target) (p gi : Na
 theorem read_value (env : Env H S V) (w : World S V) (tg : Target) (p gi : Nat) (g : Gen S V)
     (n : String) (s : Int) (pt : PType) (hinv : Inv env w)
     (hr : resolve w tg p = some (.gen gi)) (hg : w.gens[gi]? = some g) (hk : g.kind = .td n s)
-    (hp : w.ptypes[p]? = some pt) (hnf : g.failsNow = none) :
+    (hp : w.ptypes[p]? = some pt) (hnf : g.failsNow = none) (hfz : g.frozen = none) :
     (runOp env (.read tg p) w).1 = .ok (.val (some (env.tdVal n s w.clock.time))) :=
-  read_value_fn env w tg p gi g _ pt hinv hr hg (by rw [hk]; rfl) hp hnf
+  read_value_fn env w tg p gi g _ pt hinv hr hg (by rw [hk]; rfl) hp hnf hfz
 
 /-- **Reading never moves the clock** (a `TimeSampledFn` visits its sample time inside a time
 context and comes back): time, timestep, until and the context stack after a read, a forced
@@ -106,13 +106,15 @@ theorem read_keeps_clock (env : Env H S V) (w : World S V) (tg : Target) (p : Na
   readSlot_clock env w tg p f
 
 /-- The full statement: after *any* history, from any coherent world, a read of a time-dependent
-generator with name `n` and seed `s` returns `gen n s t` for the current time `t`. -/
+generator with name `n` and seed `s` returns `gen n s t` for the current time `t` — for generators
+that follow the global clock (`g.frozen = none`: every generator except a per-instance deep copy of
+one that was constructed with an explicit `time_fn=`; see `C19_every_instance_refuted`). -/
 def C19_full : Prop :=
   ∀ (H S V : Type) (env : Env H S V) (w0 : World S V), Inv env w0 →
   ∀ (ops : List Op) (tg : Target) (p gi : Nat) (g : Gen S V) (n : String) (s : Int) (pt : PType),
     resolve (runOps env ops w0).2 tg p = some (.gen gi) →
     (runOps env ops w0).2.gens[gi]? = some g → g.kind = .td n s →
-    (runOps env ops w0).2.ptypes[p]? = some pt → g.failsNow = none →
+    (runOps env ops w0).2.ptypes[p]? = some pt → g.failsNow = none → g.frozen = none →
     (runOp env (.read tg p) (runOps env ops w0).2).1
       = .ok (.val (some (env.tdVal n s (runOps env ops w0).2.clock.time)))
 
@@ -123,14 +125,44 @@ theorem read_is_function_of_time (env : Env H S V) (w0 : World S V) (h0 : Inv en
     (ops : List Op) (tg : Target) (p gi : Nat) (g : Gen S V) (n : String) (s : Int) (pt : PType)
     (hr : resolve (runOps env ops w0).2 tg p = some (.gen gi))
     (hg : (runOps env ops w0).2.gens[gi]? = some g) (hk : g.kind = .td n s)
-    (hp : (runOps env ops w0).2.ptypes[p]? = some pt) (hnf : g.failsNow = none) :
+    (hp : (runOps env ops w0).2.ptypes[p]? = some pt) (hnf : g.failsNow = none) (hfz : g.frozen = none) :
     (runOp env (.read tg p) (runOps env ops w0).2).1
       = .ok (.val (some (env.tdVal n s (runOps env ops w0).2.clock.time))) :=
-  read_value env _ tg p gi g n s pt (history_preserves_inv env ops w0 h0) hr hg hk hp hnf
+  read_value env _ tg p gi g n s pt (history_preserves_inv env ops w0 h0) hr hg hk hp hnf hfz
 
 theorem C19_full_holds : C19_full :=
-  fun _ _ _ env w0 h0 ops tg p gi g n s pt hr hg hk hp hnf =>
-    read_is_function_of_time env w0 h0 ops tg p gi g n s pt hr hg hk hp hnf
+  fun _ _ _ env w0 h0 ops tg p gi g n s pt hr hg hk hp hnf hfz =>
+    read_is_function_of_time env w0 h0 ops tg p gi g n s pt hr hg hk hp hnf hfz
+
+/-- "…and on every instance", without the exception for generators given an explicit `time_fn`. -/
+def C19_every_instance : Prop :=
+  ∀ (H S V : Type) (env : Env H S V) (w0 : World S V), Inv env w0 →
+  ∀ (ops : List Op) (tg : Target) (p gi : Nat) (g : Gen S V) (n : String) (s : Int) (pt : PType),
+    resolve (runOps env ops w0).2 tg p = some (.gen gi) →
+    (runOps env ops w0).2.gens[gi]? = some g → g.kind = .td n s →
+    (runOps env ops w0).2.ptypes[p]? = some pt → g.failsNow = none →
+    (runOp env (.read tg p) (runOps env ops w0).2).1
+      = .ok (.val (some (env.tdVal n s (runOps env ops w0).2.clock.time)))
+
+/-- witness: `x = Dynamic(default=UniformRandom(name='g', seed=0, time_dependent=True, time_fn=T))` with `T`
+the global Time object; `a = A(); T(1); a.x` is the value of time 0 (the instance's generator owns a deep
+copy of `T`, made at time 0) -/
+def frozenWorld : World Nat Nat :=
+  { dynTD := true, clock := Clock.init, gens := [Gen.fresh (.td "g" 0) none true], ptypes := [.dynamic],
+    defaults := [.gen 0], insts := [] }
+def frozenEnv : Env Int Nat Nat :=
+  { hash := fun _ s t => s + t.num, reseed := fun h => h.toNat, next := fun st => (st, st + 1), init := fun k => k }
+
+/-- **"On every instance" is false of the code for a generator constructed with an explicit `time_fn`**
+(recorded finding `explicit-time-fn-deepcopied-per-instance`). -/
+theorem C19_every_instance_refuted : ¬ C19_every_instance := by
+  intro h
+  have h0 : Inv frozenEnv frozenWorld :=
+    inv_fresh _ _ rfl (by intro g hg; simp [frozenWorld] at hg; exact ⟨_, _, _, hg⟩)
+  have := h Int Nat Nat frozenEnv frozenWorld h0 [.newInst, .setTime 1] (.inst 0) 0 1
+    ((Gen.fresh (.td "g" 0) none true : Gen Nat Nat).copyAt 0) "g" 0 .dynamic rfl rfl rfl rfl rfl
+  revert this
+  decide +kernel
 
 /-- regression witness of the repaired defect (`_Dynamic_time` used to start at −1): class `A`
 with `x = Dynamic(default=UniformRandom(name='g', seed=0, time_dependent=True))`;
@@ -158,10 +190,10 @@ theorem read_same_any_order_any_instance (env : Env H S V) (w w' : World S V) (h
     (hg' : (runOps env ops' w').2.gens[gi']? = some g') (hk' : g'.kind = .td n s)
     (hp' : (runOps env ops' w').2.ptypes[p']? = some pt')
     (ht : (runOps env ops w).2.clock.time = (runOps env ops' w').2.clock.time)
-    (hnf : g.failsNow = none) (hnf' : g'.failsNow = none) :
+    (hnf : g.failsNow = none) (hnf' : g'.failsNow = none) (hfz : g.frozen = none) (hfz' : g'.frozen = none) :
     (runOp env (.read tg p) (runOps env ops w).2).1 = (runOp env (.read tg' p') (runOps env ops' w').2).1 := by
-  rw [read_is_function_of_time env w h ops tg p gi g n s pt hr hg hk hp hnf,
-      read_is_function_of_time env w' h' ops' tg' p' gi' g' n s pt' hr' hg' hk' hp' hnf', ht]
+  rw [read_is_function_of_time env w h ops tg p gi g n s pt hr hg hk hp hnf hfz,
+      read_is_function_of_time env w' h' ops' tg' p' gi' g' n s pt' hr' hg' hk' hp' hnf' hfz', ht]
 
 /-- **Repeated reads.**  Reading any dynamic parameter (any generator, time-dependent or not)
 twice at the same time returns the same result, and the second read changes nothing. -/
@@ -368,7 +400,7 @@ def exEnv : Env Nat Nat Nat :=
   { hash := fun _ s t => (s + t.num).toNat + t.den, reseed := fun h => 2 * h + 1, next := fun st => (3 * st, st + 1), init := fun k => k }
 
 example : Inv exEnv exWorld :=
-  inv_fresh _ _ rfl (by intro g hg; simp [exWorld] at hg; rcases hg with h | h <;> exact ⟨_, h⟩)
+  inv_fresh _ _ rfl (by intro g hg; simp [exWorld] at hg; rcases hg with h | h <;> exact ⟨_, _, _, h⟩)
 
 /-- a history with jumps back and forth, a nested context left by an exception, push/pop: the
 reads of the time-dependent generator at time 5 agree, and the hypotheses of the theorems hold -/
